@@ -38,7 +38,7 @@ type builtFilter struct {
 	// ... and its target: kind, upstream cluster, authority / URI host, failure mode, status on error, path prefix
 	// (everything else of the ext_authz config must have the fixed default the harness never changes)
 	target string
-	label  string // kind:cluster - names the consulted authorizer on `req` lines
+	label  string // = target: names the consulted authorizer on `req` lines
 }
 
 // extTargetHTTP / extTargetTCP: canonical target of an ext_authz filter.
@@ -60,7 +60,7 @@ func (b *builtFilter) httpTarget(ea *extauthzhttp.ExtAuthz) {
 	case *extauthzhttp.ExtAuthz_GrpcService:
 		eg := sv.GrpcService.GetEnvoyGrpc()
 		b.target = extTarget("grpc", eg.GetClusterName(), eg.GetAuthority(), ea.GetFailureModeAllow(), ea.GetStatusOnError(), "")
-		b.label = "grpc:" + eg.GetClusterName()
+		b.label = b.target
 		if sv.GrpcService.GetTimeout().GetSeconds() != 600 || sv.GrpcService.GetGoogleGrpc() != nil || len(sv.GrpcService.GetInitialMetadata()) != 0 {
 			b.other = "ext-authz-grpc-service"
 		}
@@ -68,7 +68,7 @@ func (b *builtFilter) httpTarget(ea *extauthzhttp.ExtAuthz) {
 		hs := sv.HttpService
 		b.target = extTarget("http", hs.GetServerUri().GetCluster(), strings.TrimPrefix(hs.GetServerUri().GetUri(), "http://"),
 			ea.GetFailureModeAllow(), ea.GetStatusOnError(), hs.GetPathPrefix())
-		b.label = "http:" + hs.GetServerUri().GetCluster()
+		b.label = b.target
 		if hs.GetServerUri().GetTimeout().GetSeconds() != 600 || !strings.HasPrefix(hs.GetServerUri().GetUri(), "http://") ||
 			hs.GetAuthorizationRequest() != nil || hs.GetAuthorizationResponse() != nil {
 			b.other = "ext-authz-http-service"
@@ -86,7 +86,7 @@ func (b *builtFilter) httpTarget(ea *extauthzhttp.ExtAuthz) {
 func (b *builtFilter) tcpTarget(ea *extauthztcp.ExtAuthz) {
 	eg := ea.GetGrpcService().GetEnvoyGrpc()
 	b.target = extTarget("grpc", eg.GetClusterName(), eg.GetAuthority(), ea.GetFailureModeAllow(), nil, "")
-	b.label = "grpc:" + eg.GetClusterName()
+	b.label = b.target
 	rest := proto.Clone(ea).(*extauthztcp.ExtAuthz)
 	rest.GrpcService, rest.FilterEnabledMetadata, rest.FailureModeAllow, rest.StatPrefix, rest.TransportApiVersion = nil, nil, false, "", 0
 	if ea.GetStatPrefix() != "tcp." || ea.GetTransportApiVersion() != corepb.ApiVersion_V3 || ea.GetGrpcService().GetTimeout().GetSeconds() != 600 ||
